@@ -253,8 +253,10 @@ func main() {
 			k = n
 		}
 	}
-	repDir := filepath.Join(root(), ".build", "reports")
+	// one report directory per invocation, so that concurrent runs (seeded-change runs against scratch copies) do not collide
+	repDir := filepath.Join(root(), ".build", "reports", fmt.Sprintf("%s-%d", id, os.Getpid()))
 	_ = os.MkdirAll(repDir, 0o755)
+	// (removed after the merge, unless something was inconclusive: the shard logs are then worth keeping)
 	_ = os.RemoveAll(filepath.Join(root(), "props", "testdata", "rapid"))
 
 	results := make([]shardResult, k)
@@ -416,6 +418,9 @@ func main() {
 		infra = append(infra, "cannot write evidence: "+err.Error())
 	}
 
+	if len(infra) == 0 {
+		_ = os.RemoveAll(repDir)
+	}
 	sort.Strings(confirmed)
 	for _, kf := range confirmed {
 		fmt.Printf("KNOWN-FINDING: %s\n", kf)
